@@ -56,6 +56,26 @@ type pipeLabel struct {
 	Pairs            map[string]string `json:"pairs"`
 	IncludeSelectors bool              `json:"includeSelectors"`
 	IncludeTemplates bool              `json:"includeTemplates"`
+	Fields           []pipeFS          `json:"fields,omitempty"`
+}
+
+// one custom field spec of a labels entry (labels[].fields)
+type pipeFS struct {
+	Group   string `json:"group,omitempty"`
+	Version string `json:"version,omitempty"`
+	Kind    string `json:"kind,omitempty"`
+	Path    string `json:"path"`
+	Create  bool   `json:"create,omitempty"`
+}
+
+var pipeFieldPool = []pipeFS{
+	{Path: "spec/extra/lbl", Create: true},
+	{Kind: "Widget", Path: "spec/selector/matchLabels"},
+	{Kind: "Deployment", Path: "spec/template/metadata/labels"}, // create=false: conflicts with the default row
+	{Group: "example.com", Kind: "Widget", Path: "spec/podLabels", Create: true},
+	{Path: "metadata/labels", Create: true},
+	{Kind: "Service", Version: "v1", Path: "spec/selector", Create: true},
+	{Kind: "Gadget", Path: "spec/extra"},
 }
 
 type pipeGenSpec struct {
@@ -701,8 +721,15 @@ func pipeGenCase(rng *Rng, rules []krusty.VerifC03Rule) *pipeCase {
 		if rng.Chance(30) {
 			n := 1 + rng.Intn(2)
 			for i := 0; i < n; i++ {
-				d.Labels = append(d.Labels, pipeLabel{Pairs: pipeRandPairs(rng, 2),
-					IncludeSelectors: rng.Chance(35), IncludeTemplates: rng.Chance(40)})
+				e := pipeLabel{Pairs: pipeRandPairs(rng, 2),
+					IncludeSelectors: rng.Chance(35), IncludeTemplates: rng.Chance(40)}
+				if rng.Chance(25) {
+					nf := 1 + rng.Intn(2)
+					for j := 0; j < nf; j++ {
+						e.Fields = append(e.Fields, pipeFieldPool[rng.Intn(len(pipeFieldPool))])
+					}
+				}
+				d.Labels = append(d.Labels, e)
 			}
 		}
 	}
@@ -847,6 +874,26 @@ func pipeRenderDir(pc *pipeCase, d *pipeDir, path string, top bool) {
 			if e.IncludeTemplates {
 				m["includeTemplates"] = true
 			}
+			if len(e.Fields) > 0 {
+				var fl []interface{}
+				for _, f := range e.Fields {
+					fm := map[string]interface{}{"path": f.Path}
+					if f.Group != "" {
+						fm["group"] = f.Group
+					}
+					if f.Version != "" {
+						fm["version"] = f.Version
+					}
+					if f.Kind != "" {
+						fm["kind"] = f.Kind
+					}
+					if f.Create {
+						fm["create"] = true
+					}
+					fl = append(fl, fm)
+				}
+				m["fields"] = fl
+			}
 			l = append(l, m)
 		}
 		k["labels"] = l
@@ -958,6 +1005,8 @@ func pipeCoqGen(s pipeGenSpec) string {
 		coqStr(s.Type), coqBool(s.HasOpts), pipeCoqPairs(s.Labels), pipeCoqPairs(s.Annos), coqBool(s.DisableHash))
 }
 
+var customFields bool // set by pipeCoqDir when a labels entry carries custom fields (distribution only)
+
 func pipeCoqDir(d *pipeDir, vals map[string]bool) (string, bool) {
 	var labels, cm, sec, ents []string
 	note := func(m map[string]string) {
@@ -968,7 +1017,14 @@ func pipeCoqDir(d *pipeDir, vals map[string]bool) (string, bool) {
 	}
 	for _, e := range d.Labels {
 		note(e.Pairs)
-		labels = append(labels, fmt.Sprintf("(Labels.mkLD %s %s %s [])", pipeCoqPairs(e.Pairs), coqBool(e.IncludeSelectors), coqBool(e.IncludeTemplates)))
+		var fl []string
+		for _, f := range e.Fields {
+			fl = append(fl, fmt.Sprintf("(mkFs %s %s %s %s %s)", coqStr(f.Group), coqStr(f.Version), coqStr(f.Kind), coqStr(f.Path), coqBool(f.Create)))
+		}
+		if len(e.Fields) > 0 {
+			customFields = true
+		}
+		labels = append(labels, fmt.Sprintf("(Labels.mkLD %s %s %s [%s])", pipeCoqPairs(e.Pairs), coqBool(e.IncludeSelectors), coqBool(e.IncludeTemplates), strings.Join(fl, "; ")))
 	}
 	note(d.CommonLabels)
 	note(d.CommonAnnos)
@@ -1223,7 +1279,9 @@ func pipeOne(r *Run, pc *pipeCase, debug bool, corpus bool) {
 	for _, v := range pipeOracles(pc, o) {
 		r.Violation(OracleViolation{Law: v[0], Class: v[1], Detail: v[2], Replay: pc})
 	}
+	customFields = false
 	term, ok := pipeCaseTerm(pc, o)
+	r.Count("labels_custom_fields", fmt.Sprint(customFields))
 	if !ok {
 		r.Meta.Skipped++
 		return
@@ -1244,7 +1302,7 @@ func pipeErrKind(msg string) string {
 		return "ambiguous-referral"
 	case strings.Contains(msg, "illegally repeats the key"):
 		return "generator-repeated-key"
-	case strings.Contains(msg, "conflicting fieldspecs"):
+	case strings.Contains(msg, "conflicting fieldspecs") || strings.Contains(msg, "failed to merge"):
 		return "label-fieldspec-conflict"
 	case strings.Contains(msg, "cannot merge or replace"):
 		return "merge-target-missing"
